@@ -54,6 +54,15 @@ CLAIMS['C19'] = ('proof',
     'reader, extensions and flavour forwarded, payload handed on verbatim); compile() is proved to consult borrowers '
     'only for names without generated code, to forward genTexts, to write the borrowed payload verbatim and to keep a '
     'compiled module from being replaced.', COMPILE_NOTE, '5 C19')
+CLAIMS['C02'] = ('other',
+    'Every grammar action of SmiV2Parser and of the nine relaxation classes is verified, alternative by alternative, '
+    'against an expected tree written over the right-hand-side symbols by name and against the value type of its '
+    'left-hand side (rely/guarantee over the parse tree); token rules are verified against their regular expressions. '
+    'This proves the pysmi code the statement depends on; that PLY builds and drives correct LALR tables is trusted, '
+    'hence level other.',
+    'Trusted: PLY (lexer rule order, yacc driver), re; the value type of importPart (dict merge loop) is assumed. '
+    'Productions that by design have no tree representation are listed in NOT_REPRESENTED (contract: value None).',
+    '5 C02')
 NOT_YET = {
 }
 
